@@ -188,7 +188,11 @@ impl RawAutomaton {
         let mut markers = FxHashSet::default();
         for (position, byte_range) in word.iter().enumerate() {
             for byte in byte_range {
-                if (byte.char as usize) < alphabet_size {
+                // A repeated letter in a range must not yield a repeated transition (the
+                // automaton is flagged deterministic).
+                if (byte.char as usize) < alphabet_size
+                    && !transitions[position].contains(&(*byte, position + 1))
+                {
                     markers.insert(byte.marker);
                     transitions[position].push((*byte, position + 1));
                 }
